@@ -15,6 +15,7 @@
    generator. *)
 From Coq Require Import ZArith List Bool.
 From DD Require Import Proto ProtoSpec ProtoCases ProtoProofs.
+From DD Require Mir GenErr Layout Reset ResetProofs ResetWire.
 Import ListNotations.
 
 (* ceil(size/8): the register buffer of a `sz`-bit field set *)
@@ -154,6 +155,32 @@ Proof. vm_compute. reflexivity. Qed.
 Example C05_example_hyp : length [0xab; 0x0c] = nbytes 12 /\ nbytes 1 = 1%nat /\ nbytes 9 = 2%nat /\ nbytes 128 = 16%nat.
 Proof. vm_compute. repeat split. Qed.
 
+(* The clause "the ref's own reset value for a ref that overrides it": composition with the generator model of
+   C08 (Reset.v).  For an accepted definition, a register ref with a RESET_VALUE override gets the accessor
+   constructor new_as_<ref>, whose bytes are the override's value; `write(|_| ())` through the ref performs exactly
+   one interface write of those ceil(size/8) bytes with the target's declared size, and the target's own `new()`
+   keeps the target's value. *)
+Module RefReset.
+  Import DD.Common DD.Mir DD.GenErr DD.Layout DD.Reset DD.ResetWire.
+  Theorem C05_ref_reset : forall rf d em c name target acc addr aao rv rep base orc h a,
+    pipeline_with rf d = Ok (GenErr.ROk em) ->
+    In (ORef c name (OvRegister target acc addr aao (Some rv) rep)) (preorder_objects (d_objects d)) ->
+    search_object target (d_objects d) = Some (ORegister base) -> 0 < rg_size_bits base ->
+    let bo := effective_byte_order (d_config d) (rg_byte_order base) in
+    let size := rg_size_bits base in
+    let wire := spec_bytes (Some rv) bo size in
+    exists cs resp,
+      In cs (em_sets em) /\ cs_name cs = rg_name base /\
+      In (new_as_name name, wire) (cs_new_as cs) /\
+      cs_new cs = spec_bytes (rg_reset base) bo size /\
+      In {| ac_name := snake name; ac_field_set := rg_name base; ac_reset_fn := new_as_name name |} (em_accessors em) /\
+      Proto.run orc (Proto.reg_write a size wire id_closure) h =
+        ([(Proto.RegWrite a size wire, resp)],
+         Proto.Done (match Proto.r_res resp with Proto.ROk _ => Proto.ROk tt | Proto.RErr e => Proto.RErr e end)).
+  Proof. exact ResetWire.ref_write_sends_override. Qed.
+End RefReset.
+Definition C05_ref_reset := RefReset.C05_ref_reset.
+
 Print Assumptions C05_nbytes_ceil.
 Print Assumptions C05_write.
 Print Assumptions C05_write_with_zero.
@@ -162,3 +189,4 @@ Print Assumptions C05_modify.
 Print Assumptions C05_async_agrees_meaning.
 Print Assumptions C05_async_equiv.
 Print Assumptions C05_async_equiv_seq.
+Print Assumptions C05_ref_reset.
